@@ -67,6 +67,10 @@ CLAIMED = {
    text="The 22 exit codes are pairwise distinct and each of the 22 diverging error functions passes exactly one of them to wowm_exit, which ends in process::exit(code); every error function has a call site reachable from main (27 call sites); WorldVersion::covers/overlaps and LoginVersion::fullfills/overlaps are interpreted for all 1,940 pairs of a domain that is exhaustive for equality-only comparisons and equal the documented prefix relation; the enumerator range check accepts exactly the value range of each of the 9 base integer types; the pairwise clash loop excludes pairs only by object identity. These are necessary conditions of 'each rule stops the generator with its own exit status'.",
    note="that every violation anywhere in a corpus reaches the check of its rule quantifies over input programs and is not decided; one genuine defect (out-of-range enumerator values accepted) was repaired by a fix: commit",
    ref="§3 C16"),
+ "C17": dict(level="translation_validation", tech="parse-back of the generated C fragments (own parser for the emitted C subset) + structural comparison with wowm reference layouts from an independent parser, if-chains evaluated per declared enumerator / flag set through enums.txt + def-use closure over imports/register/variables",
+   text="Each of the 585 case bodies (Vanilla world messages, login messages per protocol version and direction) is parsed into walk items and compared with the reference layout of the definition: order, widths, endianness flags, string/guid/mask helpers, loop bounds and their count variables, if / else-if chains (every declared enumerator, every flag arm; constants resolved through enums.txt), optional tails, compressed blocks, inlined structs, and no item after the last member; 76 member-less messages may fall to the empty default; cases and messages are in bijection; all 852 hf_ fields are declared and registered, all 167 constants defined, every steering variable declared and assigned before use.",
+   note="the dissector's helper functions are trusted to consume their built-in type; regenerating the files is not decided; two genuine defects of the artefact are known findings (IpAddress read little-endian; login version grouping drops security_flag / protocol 3 reconnect)",
+   ref="§3 C17"),
 }
 NA_REASONS = {}
 DEFAULT_NA = "check under construction in this round (see DESIGN.md); will be claimed once its rule module is committed"
